@@ -24,7 +24,7 @@ func init() {
 			}},
 		},
 		Meta: eng.PropMeta{
-			Explanation: "Decides only the third clause of the property ('local writes never leave a one-to-one link held by two documents'): (ONE-TO-ONE-GUARD) in collection.save every field-level AddDelta is preceded, in the same loop iteration, by validateOneToOneLinkDoesntAlreadyExist whose error edge returns; (ONE-TO-ONE-SCAN) inside that guard the only ways to skip the 'already linked' scan are decisions over the value being nil and the kinds of the two relation fields (schema shape) — no other input (indexes, options, caches) can exempt a write — and a positive scan result yields an error. Also decided, as necessary conditions of join symmetry: (JOIN-END) invertibleTypeJoin reports end of iteration only on an error or when its first-side source is exhausted — a first-side document with nothing to yield is skipped; (SEEN-SET) a slice field used as a seen-set is tested exhaustively before a value is appended; (ORDER-DIRECTION-CARRIED) an order condition rebuilt for the inverted side keeps its direction; (RECURSION-ARGS) as in C07.",
+			Explanation: "Decides only the third clause of the property ('local writes never leave a one-to-one link held by two documents'): (ONE-TO-ONE-GUARD) in collection.save every field-level AddDelta is preceded, in the same loop iteration, by validateOneToOneLinkDoesntAlreadyExist whose error edge returns; (ONE-TO-ONE-SCAN) inside that guard the only ways to skip the 'already linked' scan are decisions over the value being nil and the kinds of the two relation fields (schema shape) — no other input (indexes, options, caches) can exempt a write — and a positive scan result yields an error. Also decided, as necessary conditions of join symmetry: (JOIN-END) invertibleTypeJoin reports end of iteration only on an error or when its first-side source is exhausted — a first-side document with nothing to yield is skipped; (SEEN-SET) a slice field used as a seen-set is tested exhaustively before a value is appended; (ORDER-DIRECTION-CARRIED) an order condition rebuilt for the inverted side keeps its direction; (RECURSION-ARGS) as in C07. (JOIN-INVERT-GUARDS) the planner inverts a join on a relation filter only after evaluating that filter on a parent without related document (a positive result keeps the direction), and the inversion clears the parent scan's secondary index because the parent is then fetched by docID.",
 			NotDecided:  "equality of the two directions of a relation over all data, join inversion through an index beyond the necessary conditions above, batching of primary lookups, filters/ordering/aggregates through relations: these are relations between two query results over all data and plans and are not decidable by a structural rule here",
 		},
 	})
